@@ -167,6 +167,9 @@ def run_item(item):
             opts['--hunk-header-style'] = hhs
             hh_file = 'file' in hhs
             hh_num = 'line-number' in hhs
+    elif rng.random() < 0.15:
+        # a hunk header style from the user's configuration: of no concern to grep output
+        opts['--hunk-header-style'] = rng.choice(['raw', 'omit', 'file', 'line-number syntax bold', 'syntax'])
     if layout:
         opts['--grep-output-type'] = layout
     eff_layout = layout or ('ripgrep' if fmt == 'json' else 'classic')
